@@ -27,7 +27,10 @@ type propDef struct {
 var props = map[string]propDef{}
 
 func init() {
-	props["C01"] = propDef{gen: GenC01, chk: func() Checker { return &c01Checker{prop: "C01"} }}
+	props["C01"] = propDef{gen: GenC01, chk: func() Checker { return &stratChecker{prop: "C01", fileInv: true} }}
+	props["C05"] = propDef{gen: GenC05, chk: func() Checker { return &stratChecker{prop: "C05", fileInv: true, monitors: true} }}
+	props["C07"] = propDef{gen: GenC07, chk: func() Checker { return &stratChecker{prop: "C07", fileInv: true} }}
+	props["C16"] = propDef{gen: GenC16, chk: func() Checker { return &stratChecker{prop: "C16", fileInv: true} }}
 }
 
 func parseSeeds(spec string) []uint64 {
